@@ -149,6 +149,11 @@ uint64_t cmb_timeseries_finalize(struct cmb_timeseries *tsp, const double t)
     const uint64_t n = dsp->count;
     cmb_assert_release((n == 0u) || ((tsp->ta != NULL)
                                  && (tsp->ta[n - 1u] <= t)));
+    if (n == 0u) {
+        /* Nothing recorded, nothing to close */
+        return 0u;
+    }
+
     const double x = dsp->xa[n - 1u];
     const uint64_t r = cmb_timeseries_add(tsp, x, t);
 
